@@ -149,6 +149,32 @@ def rule_generator_compaction(run):
            "the record is keyed by (frame.context_id, topic without `.spawn` / `.spawn.error`): %s" % sorted(strips), reason="generator-not-restored")
 
 
+def rule_lifecycle_frames_persist(run):
+    """The restart compaction reads `<name>.unregistered` (handlers) and `<name>.spawn.error` (generators) back from the log: the
+    system appends them with the default, persistent TTL - never with a TTL taken from user configuration (an ephemeral or
+    time-limited `.unregistered` is announced live but forgotten by the next restart, which then revives the handler)."""
+    n = 0
+    for b in run.facts.all_bodies():
+        if not b.def_.startswith(("xs::handlers::", "xs::generators::")) or "::tests" in b.def_:
+            continue
+        for a in F.appends_in(b):
+            for suf in (".unregistered", ".spawn.error"):
+                if not a.has_suffix(suf):
+                    continue
+                n += 1
+                run.touch(b)
+                t = a.setters.get("ttl")
+                ok = t is None
+                if t is not None:
+                    x = strip(t)
+                    ok = (x[0] == "agg" and x[1].get("variant") in ("Forever", "None")) or any(
+                        y[0] == "agg" and y[1].get("adt", "").endswith("TTL") and y[1].get("variant") == "Forever" for y in walk(t)) and not any(
+                        y[0] == "field" for y in walk(t))
+                run.ob("%s|%s|persistent" % (run.facts.enclosing_fn(b), suf), ok, a.call.sp,
+                       "`<name>%s` is appended with the default (persistent) TTL%s" % (suf, "" if t is None else ": ttl = %s" % fmt(strip(t))[:80]), reason="lifecycle-frame-not-persistent")
+    run.floor("appends of lifecycle frames the restart compaction reads (.unregistered / .spawn.error)", n, 4)
+
+
 def r2(run):
     for mod in MODULES:
         sv = serve_body(run, mod)
@@ -278,6 +304,7 @@ RULES = [
     ("R-C17-1", "every registry of the handlers / generators / commands modules is keyed by (context_id, name)", r1),
     ("R-C17-6", "dispatchers keep serving: following subscription, xs.threshold ends the replay and starts the live phase, the live loop ends only with the stream", rule_dispatcher_shape),
     ("R-C17-7", "generators: historical .spawn frames are recorded under (context, name) during replay (a later .spawn.error replaces the record)", rule_generator_compaction),
+    ("R-C17-8", "the system frames the restart compaction reads (.unregistered, .spawn.error) are appended with the default persistent TTL, never a user-configured one", rule_lifecycle_frames_persist),
     ("R-C17-2", "user code (handlers, generators, command calls) is started only after the replay phase; history is compacted, not executed", r2),
     ("R-C17-3", "handler compaction drops an entry only on a matching handler_id and restarts survivors in register-id order", r3),
     ("R-C17-4", "the binary starts all three modules and the API on clones of one Store", r4),
